@@ -355,6 +355,52 @@ func checkC04(r *core.Run) {
 			}
 		}
 	}
+	// names split over several text nodes by constructs that emit nothing: the value must be judged by the name a
+	// browser sees, or refused
+	splitters := []string{"{{$x := 1}}", "{{if $.C}}{{end}}", "{{/* c */}}", "{{with $.C}}{{end}}", "{{range $.L}}{{end}}"}
+	for _, sp := range splitters {
+		for _, tn := range [][2]string{{"s", "cript"}, {"s", "tyle"}, {"scr", "ipt"}, {"i", "frame"}, {"t", "extarea"}, {"t", "itle"}, {"a", "udio"}, {"x", "mp"}, {"b", "utton"}, {"spa", "n"}} {
+			full := tn[0] + tn[1]
+			cjobs = append(cjobs, cj{"<" + tn[0] + sp + tn[1] + ">{{$.P0}}</" + full + ">", tab.Class(full, ""), "tag-name-in-pieces"})
+			cjobs = append(cjobs, cj{"<" + tn[0] + sp + tn[1] + " title=\"{{$.P0}}\"></" + full + ">", tab.Class(full, "title"), "tag-name-in-pieces"})
+			cjobs = append(cjobs, cj{"<" + tn[0] + sp + tn[1] + ">x = \"<p>\";{{$.P0}}</p></" + full + ">", combine(tab.Class(full, ""), tab.Class("p", "")), "tag-name-in-pieces"})
+		}
+		for _, an := range [][3]string{{"img", "src", "set"}, {"img", "alt", "x"}, {"iframe", "src", "doc"}, {"a", "title", "x"}, {"button", "for", "maction"}, {"a", "hre", "f"}, {"a", "data-", "x"}, {"a", "data-x", "y"},
+			{"a", "o", "nclick"}, {"a", "title", "/"}, {"a", "data-x", "/"}, {"a", "href", "/"}, {"a", "title", "/x"}} {
+			rv := tab.Class(an[0], an[1]+an[2])
+			if strings.Contains(an[2], "/") {
+				rv = "reject" // the solidus ends the name for a tokenizer: the quoted text is parsed as further attributes
+			}
+			for _, q := range []string{"\"", "'"} {
+				cjobs = append(cjobs, cj{"<" + an[0] + " " + an[1] + sp + an[2] + "=" + q + "{{$.P0}}" + q + ">", rv, "attribute-name-in-pieces"})
+			}
+		}
+	}
+	for _, tn := range [][2]string{{"s", "cript"}, {"s", "tyle"}, {"t", "extarea"}, {"spa", "n"}} {
+		full := tn[0] + tn[1]
+		rv := combine(tab.Class(full, ""), tab.Class(tn[0], ""))
+		for _, mid := range []string{"{{if $.C}} {{end}}" + tn[1], "{{if $.C}}" + tn[1] + "{{end}}", "{{if $.C}} x{{end}}" + tn[1], "{{if $.C}}{{else}} x {{end}}" + tn[1], "{{if $.C}}" + tn[1] + "{{else}} {{end}}"} {
+			cjobs = append(cjobs, cj{"<" + tn[0] + mid + ">{{$.P0}}</" + full + ">", rv, "tag-name-in-pieces"})
+		}
+	}
+	// the same through a called template that supplies the rest of the name
+	cjobs = append(cjobs, cj{"{{define \"n\"}}cript{{end}}<s {{template \"n\"}}></s><s{{template \"n\"}}>{{$.P0}}</script>", tab.Class("script", ""), "tag-name-in-pieces"})
+	cjobs = append(cjobs, cj{"{{define \"n\"}}/{{end}}<a title{{template \"n\"}}=\"{{$.P0}}\">", "reject", "attribute-name-in-pieces"})
+	// enumerated contexts: a static partial value in either branch
+	for _, sh := range []string{"{{if $.C}}{{else}}x{{end}}§", "{{if $.C}}x{{end}}§", "{{if $.C}}{{else}}{{if $.C2}}{{else}}x{{end}}{{end}}§", "{{with $.C}}{{else}}x{{end}}§", "§{{if $.C}}{{else}}x{{end}}", "§x", "§{{if $.C}}x{{end}}"} {
+		for _, ea := range [][2]string{{"a", "target"}, {"div", "dir"}, {"img", "loading"}, {"script", "async"}} {
+			discr := "enum-partial-value-in-branch"
+			if strings.HasPrefix(sh, "§") {
+				discr = "enum-static-suffix"
+			}
+			cjobs = append(cjobs, cj{"<" + ea[0] + " " + ea[1] + "=\"" + strings.Replace(sh, "§", "{{$.P0}}", 1) + "\">", "reject", discr})
+		}
+	}
+	// link rel assembled from pieces: any alternative that makes it a style sheet demands a TrustedResourceURL
+	for _, relv := range []string{"{{if $.C}}stylesheet {{end}}icon", "{{if $.C}}{{else}}stylesheet {{end}}icon", "stylesheet {{$x := 1}}icon", "icon{{$x := 1}} stylesheet", "stylesheet{{if $.C}} {{end}} alternate",
+		"{{if $.C}}stylesheet{{else}}icon{{end}}", "{{if $.C}}icon{{else}}stylesheet{{end}}", "icon {{if $.C}}{{else}}stylesheet{{end}}", "{{with $.C}}{{else}}stylesheet {{end}}icon", "style{{$x := 1}}sheet", "{{$.W}} icon", "icon {{$.W}}"} {
+		cjobs = append(cjobs, cj{"<link rel=\"" + relv + "\" href=\"{{$.P0}}\">", tab.Class("link", "href"), "link-rel-in-pieces"})
+	}
 	core.ParallelFor(len(cjobs), func(i int) {
 		if r.Expired() {
 			return
